@@ -425,7 +425,7 @@ def directed_payloads():
     return out
 
 IMPL_CLASS = {'load:header-size': [1, 1], 'load:length': [1, 2], 'load:layer-mode': [1, 3], 'load:font-slot': [1, 4],
-              'load:invalid-char': [1, 10]}
+              'load:invalid-char': [1, 10], 'load:other:file_too_short': [1, 11]}      # 11: FileTooShort of C02's fix commits
 
 def impl_class(r):
     """implementation outcome of an `icyload` case as the model's outcome prefix"""
